@@ -162,6 +162,9 @@ class GM:
                     return _FUNCS[last](*[self.T(a, j) for a in node.args])
             if isinstance(node.func, ast.Attribute) and node.func.attr == 'errsq' and not node.args:
                 return ERRSQ
+            if (d in ('max', 'min') or last in ('maximum', 'minimum', 'fmax', 'fmin')) and len(node.args) == 2 and not node.keywords:
+                a_, b_ = self.T(node.args[0], j), self.T(node.args[1], j)
+                return sp.Max(a_, b_) if (d == 'max' or last in ('maximum', 'fmax')) else sp.Min(a_, b_)
             raise Unrecognised('call %s' % unparse(node))
         raise Unrecognised('cannot translate %s' % unparse(node))
 
@@ -471,6 +474,21 @@ def formulas(ctx, mod):
     except Unrecognised as e:
         ctx.unrec(rule5, key, str(e))
 
+    # ---- the largest lag: half of the *longest* replica (every replica contributes the lags it has; the pair count normalises)
+    wdef = [s_ for s_ in g.sts if isinstance(s_, ast.Assign) and len(s_.targets) == 1 and isinstance(s_.targets[0], ast.Name) and s_.targets[0].id == 'w_max']
+    if len(wdef) != 1:
+        ctx.unrec('C02-D3', 'obs.py:Obs.gamma_method#w_max', 'expected one definition of w_max, found %d' % len(wdef))
+    else:
+        v_ = wdef[0].value
+        okw = isinstance(v_, ast.BinOp) and isinstance(v_.op, ast.FloorDiv) and const(v_.right) == 2 and isinstance(v_.left, ast.Call) and \
+            ((call_name(v_.left) == 'max' and len(v_.left.args) == 1) or (mod.dotted(v_.left.func) or '') in ('numpy.max', 'numpy.amax')) and \
+            isinstance(v_.left.args[0], ast.Name)
+        lens = v_.left.args[0].id if okw else None
+        # the argument is the list of replica lengths (filled by the length formulas checked above)
+        okw = okw and any(isinstance(c_, ast.Call) and isinstance(c_.func, ast.Attribute) and c_.func.attr == 'append' and unparse(c_.func.value) == lens for c_ in walk(g.f)) or \
+            (okw and any(isinstance(s_, ast.Assign) and unparse(s_.targets[0]) == lens and isinstance(s_.value, ast.ListComp) for s_ in g.sts))
+        ctx.check('C02-D3', 'obs.py:Obs.gamma_method#w_max', bool(okw), 'w_max = max(replica lengths) // 2: lags up to half of the longest replica are estimated',
+                  'w_max = %s: the largest admissible lag is half of the longest replica (shorter replicas simply contribute fewer pairs)' % unparse(v_), mod.loc(wdef[0]))
     # ---- N, w_max, normalisation of Gamma by the pair counts
     key = 'obs.py:Obs.gamma_method#normalisation'
     divs = [s for s in g.sts if isinstance(s, ast.AugAssign) and isinstance(s.op, ast.Div) and g.slot_of(s.target) == 'e_gamma']
